@@ -687,7 +687,14 @@ func c15Input(dir string, scn *c15Scn, st c15Site) any {
 		for _, l := range ls {
 			scores = append(scores, []any{l, server.VerifC15Score(l, st.Arg2, true)})
 		}
-		return J{"primary": collectKind(one(primary), kind, ""), "files": fs,
+		// extractAccountPrefix: the query up to and including its last colon (account context only)
+		prefix := ""
+		if st.Arg == "account" {
+			if k := strings.LastIndex(st.Arg2, ":"); k >= 0 {
+				prefix = st.Arg2[:k+1]
+			}
+		}
+		return J{"primary": collectKind(one(primary), kind, ""), "files": fs, "prefix": prefix,
 			"pcounts": sortedCounts(countsKind(one(primary), kind)), "fcounts": cs, "scores": scores, "max": 50}
 	case "concat":
 		docs := [][]any{}
@@ -998,7 +1005,7 @@ func c15GenScenario(c *Ctx, idx int) *c15Scn {
 		add("")
 	}
 	add("2024-07-02 Probe")
-	aq := []string{"", pick(r, []string{"exp", "a", "s", "ba", "o", "x1"})}
+	aq := []string{"", pick(r, []string{"exp", "a", "s", "ba", "o", "x1"}), pick(r, []string{"expenses:", "assets:b", "expenses:m0:", "nosuch:x", "expenses:f", "Assets:"})}
 	for _, q := range aq {
 		l := add("    " + q)
 		sites = append(sites, c15Site{Name: "completion.account." + q, Kind: "completion", Doc: c15Probe, Line: l, Char: 4 + len(q), Arg: "account", Arg2: q})
@@ -1010,9 +1017,6 @@ func c15GenScenario(c *Ctx, idx int) *c15Scn {
 	{
 		l := add("    assets:bank  1 USD  ; ")
 		sites = append(sites, c15Site{Name: "completion.tag.", Kind: "completion", Doc: c15Probe, Line: l, Char: len("    assets:bank  1 USD  ; "), Arg: "tag", Arg2: ""})
-		l = add("    expenses:food:")
-		sites = append(sites, c15Site{Name: "completion.raw.prefix", Kind: "opaque", Doc: c15Probe, Line: l, Char: len("    expenses:food:"), Arg: "completion.raw"})
-		_ = l
 	}
 	add("")
 	for i, p := range []string{pick(r, c15Payees), pick(r, c15Payees)} {
